@@ -435,6 +435,9 @@ def check(ctx):
     rule_align(ctx)
     rule_sort_ownership(ctx)
     rule_env(ctx)
+    # the reindex step that align() delegates to (each input keeps its data at its labels, NaN elsewhere)
+    from . import c07
+    c07.rule_pipeline(ctx, rid='R7')
     d = default_of(ctx.fn(AL + 'align'), 'join')
     if d != const('outer'):
         ctx.violated('R2', ctx.fn(AL + 'align'), 'def align(join=...)', "align defaults to join='outer'")
